@@ -66,11 +66,27 @@ Fixpoint redir_get (r : list (nat * nat)) (i : nat) : nat :=
   | (k, v) :: r' => if Nat.eqb i k then v else redir_get r' i
   end.
 
+(* _resolve_redirect: the redirects of the whole parent chain are applied, OLDEST database first
+   (`if self.__parent is not None and index < self.__offset: index = self.__parent._resolve_redirect(index)`
+    then `self.__node_redirect.get(index, index)`) *)
+Fixpoint resolve (c : chain) (i : nat) : nat :=
+  match c with
+  | [] => i
+  | l :: p => redir_get (l_redir l) (if i <? size p then resolve p i else i)
+  end.
+
 Fixpoint get_node (c : chain) (i : nat) : node :=          (* get_node *)
   match c with
   | [] => NEmpty
-  | l :: p => let i' := redir_get (l_redir l) i in
+  | l :: p => let i' := resolve (l :: p) i in
               if i' <? size p then get_node p i' else nth (i' - size p) (l_nodes l) NEmpty
+  end.
+
+(* the node physically stored at global index i (no redirect applied) *)
+Fixpoint raw (c : chain) (i : nat) : node :=
+  match c with
+  | [] => NEmpty
+  | l :: p => if i <? size p then raw p i else nth (i - size p) (l_nodes l) NEmpty
   end.
 
 Fixpoint assoc_sig (h : list (sig * nat)) (s : sig) : option nat :=
@@ -125,11 +141,12 @@ Definition add_head (p : chain) (l : layer) (s : sig) (create : bool) : layer * 
   end.
 
 (* _add_define_node(head, childnode): `define_node.children.append(childnode)` mutates the
-   object found through get_node (i.e. at the redirected position) in place *)
+   object found through get_node (i.e. at the position the whole chain of redirects resolves to;
+   a position below the offset is an object of an ancestor: flagged by set_node) in place *)
 Definition add_define (p : chain) (l : layer) (s : sig) (c : nat) : layer :=
   let '(l1, di) := add_head p l s true in
   match get_node (l1 :: p) di with
-  | NDefine f a ch => set_node p l1 (redir_get (l_redir l1) di) (NDefine f a (ch ++ [c]))
+  | NDefine f a ch => set_node p l1 (resolve (l1 :: p) di) (NDefine f a (ch ++ [c]))
   | NEmpty => set_node p l1 di (NDefine (fst s) (snd s) [c])
   | _ => mkL (l_nodes l1) (l_heads l1) (l_redir l1) true
   end.
@@ -356,6 +373,34 @@ Definition call_resolves (c : chain) (i : nat) : bool :=
 
 Definition any_err (c : chain) : bool := existsb l_err c.
 
+(* the group ids attached to the clause at index i, as the engine meets them: the clause node's own
+   group, the group in the choice-call of its body and the group of the choice node that call points
+   to (the engine keys the choice atom and the mutual-exclusion constraint on the latter) *)
+Definition cl_groups (c : chain) (i : nat) : option (nat * nat * nat) :=
+  match get_node c i with
+  | NClause _ _ _ ch _ (Some g) =>
+      match get_node c ch with
+      | NConj _ cc =>
+          match get_node c cc with
+          | NCallChoice g1 _ _ _ dn =>
+              match get_node c dn with
+              | NChoice g2 _ _ _ _ => Some (g, g1, g2)
+              | _ => Some (g, g1, S g1)          (* malformed: made visible as an inconsistent triple *)
+              end
+          | _ => Some (g, S g, S g)
+          end
+      | _ => Some (g, S g, S g)
+      end
+  | _ => None
+  end.
+
+(* definition list of s seen through c WITH the group ids kept *)
+Definition abs_g (fuel : nat) (c : chain) (s : sig) : list (rclause * option (nat * nat * nat)) :=
+  match get_head c s with
+  | None => []
+  | Some n => map (fun i => (render_clause fuel c i, cl_groups c i)) (define_children (get_node c n))
+  end.
+
 (* ---------------------------------------------------------------- boolean comparison (for the tie) *)
 Definition term_eqb (a b : term) : bool := if list_eq_dec N.eq_dec a b then true else false.
 Definition terms_eqb (a b : list term) : bool := if list_eq_dec (list_eq_dec N.eq_dec) a b then true else false.
@@ -446,3 +491,9 @@ Fixpoint chain_matches (c : chain) (obs : list (list node * list (sig * nat) * l
 
 Definition abs_matches (fuel : nat) (c : chain) (obs : list (sig * list rclause)) : bool :=
   forallb (fun so => list_eqb rclause_eqb (abs fuel c (fst so)) (snd so)) obs.
+
+(* tie: get_node of the model against get_node of the implementation on every index of a database.
+   `obs` lists, for the indices i whose node the implementation finds somewhere else, the global
+   position j of the object returned by get_node(i) *)
+Definition gets_match (c : chain) (obs : list (nat * nat)) : bool :=
+  forallb (fun i => node_eqb (get_node c i) (raw c (redir_get obs i))) (seq 0 (size c)).
